@@ -1161,3 +1161,24 @@ def ca_registry_steps(ctx, rule="R-CA-REGISTRY", which=("subscribe_request", "ad
         else:
             ctx.violated(rule, f, inst, "the call returns without registering / deregistering anything: the callback is never called (or never stops "
                          "being called)", f.node)
+
+
+def layer_ca_list(ctx, cls, rule="R-CA-REGISTRY"):
+    """the data link layer's list of controller applications follows add_ca / remove_ca (a CA that is not on the list sees no claim, no
+    request and owns no destination address for the filter)"""
+    P = ctx.prog
+    f = P.func(cls, "add_ca")
+    ok = any(e.kind == "call" and e.value[1] == ("attr", field("_cas"), "append") and e.value[2] == (("p", "ca"),) for r in runs(ctx, f) for _, e in r.effects())
+    inst = "%s.add_ca puts the CA on the list the receive path consults" % cls
+    if ok:
+        ctx.holds(rule, inst)
+    else:
+        ctx.violated(rule, f, inst, "the CA is never consulted: frames to its address are dropped as foreign, claims and requests do not reach it", f.node)
+    g = P.func(cls, "remove_ca")
+    ok = any(e.kind == "call" and e.value[1] == ("attr", field("_cas"), "remove") for r in runs(ctx, g, unroll=1) for _, e in r.effects()) or any(
+        e.kind == "store" and e.target == field("_cas") for r in runs(ctx, g, unroll=1) for _, e in r.effects())
+    inst = "%s.remove_ca takes the CA off the list" % cls
+    if ok:
+        ctx.holds(rule, inst)
+    else:
+        ctx.violated(rule, g, inst, "a removed CA keeps receiving (and answering) frames for its address", g.node)
